@@ -82,7 +82,7 @@ class Explorer:
                 fj = enc.path_formula(f)
                 if j >= len(prefix):
                     alts = []
-                    if f[0] == 'floorint':
+                    if f[0] in ('floorint', 'truncint'):
                         alts = [v for v in self.int_choices if v != f[3]]
                     else:
                         alts = [1 - f[3]]
